@@ -508,6 +508,7 @@ fn run_c09(t: &mut Tape, _tier: Tier) -> RunOut {
             headers: false,
         };
         mix.baseline = true;
+        mix.zero_offset = true;
         mix.prov_pending = 0;
         mix.sign.date_noise = 0;
         let mut j = |cx: &DeliveryCtx, out: &mut RunOut| {
@@ -520,6 +521,7 @@ fn run_c09(t: &mut Tape, _tier: Tier) -> RunOut {
                 }
             }
             judge_component(cx, out, "C09", "signer-and-verifier-agree-on-normal-form", &[Rule::Path], true);
+            judge_isolated(cx, out, "C09", "signer-and-verifier-agree-on-normal-form");
             judge_canonical(cx, out, &["C09"]);
         };
         return run_world(t, &mix, &mut j);
@@ -660,6 +662,7 @@ fn run_c10(t: &mut Tape, tier: Tier) -> RunOut {
             headers: false,
         };
         mix.baseline = true;
+        mix.zero_offset = true;
         mix.prov_pending = 0;
         mix.sign.date_noise = 0;
         let mut j = |cx: &DeliveryCtx, out: &mut RunOut| {
@@ -672,6 +675,7 @@ fn run_c10(t: &mut Tape, tier: Tier) -> RunOut {
                 }
             }
             judge_component(cx, out, "C10", "accept-refuse-independent-of-order-and-spelling", &[Rule::Query], true);
+            judge_isolated(cx, out, "C10", "accept-refuse-independent-of-order-and-spelling");
             judge_canonical(cx, out, &["C10"]);
         };
         return run_world(t, &mix, &mut j);
